@@ -149,6 +149,8 @@ type Runner struct {
 	maxPerCls int
 	lastCkpt  time.Time
 	curLen    int
+	prevCase  string
+	prevChoices []int
 	// CrashTrace makes the runner record the execution about to start (one pwrite per execution) so
 	// that a process death in a goroutine the harness cannot recover from is attributed to it.
 	CrashTrace bool
@@ -159,6 +161,10 @@ type resumePoint struct {
 	Choices []int  `json:"choices"`
 	Arity   []int  `json:"arity"`
 	IsDev   []bool `json:"isdev"`
+	// the execution before this one: a panic in a spawned goroutine lets the main goroutine run on
+	// for a moment, so the record may already name the successor of the execution that died
+	PrevCase    string `json:"prev_case,omitempty"`
+	PrevChoices []int  `json:"prev_choices,omitempty"`
 }
 
 // NewRunner reads VERIF_* from the environment.
@@ -267,7 +273,8 @@ func (r *Runner) writeCur(caseID string, c []int, a []int, d []bool) {
 	if r.curFile == nil || !r.CrashTrace {
 		return
 	}
-	b, _ := json.Marshal(resumePoint{Case: caseID, Choices: c, Arity: a, IsDev: d})
+	b, _ := json.Marshal(resumePoint{Case: caseID, Choices: c, Arity: a, IsDev: d, PrevCase: r.prevCase, PrevChoices: r.prevChoices})
+	r.prevCase, r.prevChoices = caseID, append([]int{}, c...)
 	b = append(b, '\n')
 	for len(b) < r.curLen { // overwrite the tail of a longer previous record
 		b = append(b, ' ')
@@ -417,12 +424,14 @@ func (r *Runner) DFS(caseID string, maxDev int, body func(x *X) Result) {
 			return
 		}
 		cur = cur[:len(ar)]
-		nxt, ok := step(cur, ar, dv, maxDev)
-		if !ok {
-			r.sum.CasesDone++
-			return
+		if os.Getenv("VERIF_RESUME_INCLUSIVE") == "" {
+			nxt, ok := step(cur, ar, dv, maxDev)
+			if !ok {
+				r.sum.CasesDone++
+				return
+			}
+			cur = nxt
 		}
-		cur = nxt
 	}
 	for {
 		if r.expired() {
